@@ -108,13 +108,14 @@ def Abs.elem (a : Abs) (id : Nat) : Option Abs :=
   else if xOf id = 33 then a.c33
   else some (a.non33.meaning id)
 
-/-- operators: 204YYY / 204000 push and pop; while an associated field is in force only 201 202 205 207 208 are admitted
-    (no bit-map construct, no 203, no 206: findings F11a-c, F11-C07-wire-*) -/
+/-- operators: 204YYY / 204000 push and pop; while an associated field is in force only 201 202 205 207 208 are admitted,
+    and 206YYY in front of a LOCAL (undefined) descriptor - `Abs.elemA` refuses a known element behind it: finding F11b
+    (no bit-map construct, no 203: findings F11a, F11c, F11-C07-wire-*) -/
 def Abs.opA (a : Abs) (id : Nat) : Option Abs :=
   if id / 1000 = 204 then
     (if id % 1000 = 0 then (if a.ad = 0 then none else some { a with ad := a.ad - 1 })
      else some { a with ad := a.ad + 1 })
-  else if a.ad = 0 then a.op id
+  else if a.ad = 0 ∨ id / 1000 = 206 then a.op id
   else if id / 1000 = 201 ∨ id / 1000 = 202 ∨ id / 1000 = 207 ∨ id / 1000 = 208 ∨ id / 1000 = 205 then some a
   else none
 
